@@ -398,6 +398,68 @@ func (a *analyzer) res(st *state, v ssa.Value) ssa.Value {
 	return v
 }
 
+// outlineStepBack: see RunCursor. Returns nil if the package contains no statement `cursor.position -= 1`.
+func (a *analyzer) outlineStepBack(pkgpath string) *ssa.Function {
+	p := a.p
+	if g, ok := p.outlined[pkgpath]; ok {
+		return g // already done for this program (the cursor analysis runs once per rule set that needs it)
+	}
+	if p.outlined == nil {
+		p.outlined = map[string]*ssa.Function{}
+	}
+	var sites []*ssa.Store
+	for _, f := range p.FuncsOf(pkgpath) {
+		if f == a.next {
+			continue
+		}
+		for _, b := range f.Blocks {
+			for _, in := range b.Instrs {
+				st, ok := in.(*ssa.Store)
+				if !ok {
+					continue
+				}
+				fa, ok := st.Addr.(*ssa.FieldAddr)
+				if !ok || fa.Field != a.posIdx {
+					continue
+				}
+				pt, ok := fa.X.Type().Underlying().(*types.Pointer)
+				if !ok || !types.Identical(pt.Elem(), a.cursorT) {
+					continue
+				}
+				bo, ok := st.Val.(*ssa.BinOp)
+				if !ok || bo.Op != token.SUB {
+					continue
+				}
+				if c, ok := constInt(bo.Y); !ok || c != 1 {
+					continue
+				}
+				ld, ok := bo.X.(*ssa.UnOp)
+				if !ok || ld.Op != token.MUL {
+					continue
+				}
+				lfa, ok := ld.X.(*ssa.FieldAddr)
+				if !ok || lfa.Field != a.posIdx || lfa.X != fa.X {
+					continue
+				}
+				// nothing between the load and the store may touch the position (they are adjacent in practice)
+				sites = append(sites, st)
+			}
+		}
+	}
+	if len(sites) == 0 {
+		p.outlined[pkgpath] = nil
+		return nil
+	}
+	g := ssa.SynthFieldStep(p.SPkgs[pkgpath], "stepBack$outlined", types.NewPointer(a.cursorT), a.posIdx, -1)
+	for _, st := range sites {
+		fa := st.Addr.(*ssa.FieldAddr)
+		ssa.ReplaceStoreWithCall(st, g, fa.X)
+	}
+	p.Funcs = append(p.Funcs, g)
+	p.outlined[pkgpath] = g
+	return g
+}
+
 // normalisePeeks rewrites, in a reader's view, step-back-then-read-again sequences that come from inlined peek/expect
 // helpers into the plain read + conditional step-back form (ssa.CancelInverseCalls); the view must stay well-formed.
 func (a *analyzer) normalisePeeks(v *ssa.Function) {
@@ -1101,6 +1163,11 @@ func RunCursor(p *Prog, pkgpath string) *CursorResult {
 			}
 		}
 	}
+	if a.next != nil && a.back == nil {
+		// the step back is written out (`p.position--`) instead of being a method: it is given a name, and every
+		// such statement in the package becomes a call of it, so that the rules see the usual primitive
+		a.back = a.outlineStepBack(pkgpath)
+	}
 	if a.next == nil || a.back == nil {
 		res.Problem = "cursor primitives (read-and-advance, step back) not recognised by shape"
 		return res
@@ -1115,14 +1182,27 @@ func RunCursor(p *Prog, pkgpath string) *CursorResult {
 		if res.Len() == 1 {
 			// a loop-free method that answers with a number or a truth value (`peek() int`, `expect(c byte) bool`) is a
 			// cursor idiom of its callers, not a reader of a grammar element
-			if b, ok := res.At(0).Type().Underlying().(*types.Basic); ok && b.Info()&(types.IsBoolean|types.IsInteger) != 0 {
-				loop := false
+			if b, ok := res.At(0).Type().Underlying().(*types.Basic); ok && b.Info()&(types.IsBoolean|types.IsInteger|types.IsString) != 0 {
+				loop, reads := false, false
 				for _, blk := range f.Blocks {
 					if blockInLoop(blk) {
 						loop = true
 					}
+					for _, in := range blk.Instrs {
+						switch x := in.(type) {
+						case *ssa.Slice:
+							reads = true // takes text from the input: a token reader
+						case *ssa.Call:
+							if x.Call.StaticCallee() == a.next {
+								reads = true
+							}
+						}
+					}
 				}
-				if !loop {
+				isStr := b.Info()&types.IsString != 0
+				// (a string-valued method that neither reads nor slices - `advanceDoc()` = skip + pending comment -
+				// is likewise a piece of its callers)
+				if !loop && (!isStr || !reads) {
 					return false
 				}
 			}
@@ -1131,7 +1211,23 @@ func RunCursor(p *Prog, pkgpath string) *CursorResult {
 		return res.Len() == 2 && isErrorType(res.At(1).Type())
 	}
 	keep := func(callee *ssa.Function) bool {
-		return callee == a.next || callee == a.back || !a.isCursorMethod(callee) || regular(callee)
+		if callee == a.next || callee == a.back {
+			return true
+		}
+		if !a.isCursorMethod(callee) {
+			// a plain function of the parser package that is handed state of the reader (`define(members, kind,
+			// name)` with the duplicate-detection map) is part of the reader; character predicates stay calls (they
+			// are evaluated, not analysed)
+			if fnPkgPath(callee) == pkgpath && callee.Parent() == nil {
+				for _, prm := range callee.Params {
+					if _, isMap := prm.Type().Underlying().(*types.Map); isMap {
+						return false
+					}
+				}
+			}
+			return true
+		}
+		return regular(callee)
 	}
 	var views []*ssa.Function
 	a.inlinedHelpers = map[*ssa.Function]bool{}
